@@ -477,6 +477,10 @@ def judge_c10(mb, run, result):
             out.append(Violation('final-construct:unbound-event-accepted', what))
         elif fc.get('exc') != 'binding_error':
             out.append(Violation('final-construct:failed-without-binding-error', f"{what}: {fc.get('what')}"))
+        else:
+            retry = h.first('fc_retry')
+            if retry is not None and retry['result'] != 'throw':
+                out.append(Violation('final-construct:unbound-event-accepted-on-retry', what))
     else:
         if fc['result'] != 'ok':
             out.append(Violation('final-construct:all-bound-rejected', fc.get('what', '?')))
